@@ -141,12 +141,23 @@ def relValues32 : List Int :=
   [-129, -128, -127, -1, 0, 1, 2, 126, 127, 128, 129, 255, 256, 0x7fff, 0x8000, -0x8000, -0x8001, 0x12345678, -0x12345678,
    0x7fffffff, -0x80000000, 0x7ffffffe, -0x7fffffff]
 
-/-- C05: relative branches -/
+/-- an address without base register: every index register (the stack pointer cannot be one) x every scale, with and without
+    displacement (scale 1 and 2 are rewritten to a base by the NASM no-base option) -/
+def memsNoBase (size : Nat) : List Mem :=
+  ((List.range 16).filter (· != 4)).flatMap fun i => [1, 2, 4, 8].flatMap fun s => [0, 8].map fun d => mkMem size false none (some i) s d
+
+/-- C05: relative branches over the displacement values, and the indirect forms of jmp and call: register targets over all
+    registers, memory and far-memory targets over the C02 address shapes -/
 def famC05 : List Item :=
   let f : Fill := { mems := noMems, imms := fewImm, rels8 := (List.range 256).map (fun (n : Nat) => (n : Int) - 128), rels32 := relValues32 ++ (List.range 260).map (fun (n : Nat) => (n : Int) - 130) }
-  (table.filter hasRel).flatMap fun en =>
+  ((table.filter hasRel).flatMap fun en =>
     let ds := enumEnc f en
-    ds.flatMap (withSynonyms {}) ++ items { num := .dec } ds ++ items { relKw := "short " } ds ++ items { relKw := "long " } ds
+    ds.flatMap (withSynonyms {}) ++ items { num := .dec } ds ++ items { relKw := "short " } ds ++ items { relKw := "long " } ds) ++
+  ((table.filter fun en => ["call", "callf", "jmp", "jmpf"].contains en.mn && hasRm en && !hasRel en).flatMap fun en =>
+    let mems := fun sz => memsKey sz ++ memsSwap sz ++ memsLoneSp sz ++ memsNoBase sz
+    let fi : Fill := { mems, imms := fewImm, rels8 := [], rels32 := [], regForm := true, memForm := true }
+    let ds := enumEnc fi en
+    items {} ds ++ items { scaleFirst := true, kwAlways := true, num := .dec } ds)
 
 def family (name : String) (level : Nat) : List Item :=
   if name == "c01" then famC01
